@@ -115,7 +115,8 @@ static unsigned int assemble_imm(struct instr *instruc, unsigned char ptr[]) {
       ((type != CONTROL_FLOW &&       // it must not be CONTROL_FLOW
         instruc->op_offset != 3 &&    // and cannot have op_offset 3
         !instruc->keyword.is_byte) && // and cannot be a byte
-       opd0_mode > noext8) ||         // and op0 mode must be bigger than noext8
+       (opd0_mode > noext8 ||         // and op0 mode must be bigger than noext8
+        instruc->mem_disp)) ||        // unless it is a placeholder (no base reg)
       (INSTR_TABLE[instruc->key].encode_operand > I) ||
       (type == PAD_ALWAYS);
   // return if zero padding is not required
